@@ -314,18 +314,23 @@ class SqlImpl(TableImpl):
             return cls.fix_fn_types(expr, value, *args)
 
         elif isinstance(expr, CaseExpr):
-            res = sqa.case(
-                *(
-                    (
-                        cls.compile_col_expr(cond, sqa_expr),
-                        cls.compile_col_expr(val, sqa_expr),
-                    )
-                    for cond, val in expr.cases
-                ),
-                else_=(cls.compile_col_expr(expr.default_val, sqa_expr) if expr.default_val is not None else None),
-            )
+            whens = [
+                (
+                    cls.compile_col_expr(cond, sqa_expr),
+                    cls.compile_col_expr(val, sqa_expr),
+                )
+                for cond, val in expr.cases
+            ]
+            else_ = cls.compile_col_expr(expr.default_val, sqa_expr) if expr.default_val is not None else None
+            res = sqa.case(*whens, else_=else_)
 
-            if not cls.pdt_type(res.type).is_subtype(expr.dtype()):
+            # SQLAlchemy types a CASE by its first THEN value; every branch has to fit
+            # the result type (an integer branch of a Float case keeps INTEGER storage
+            # on dynamically typed backends)
+            branch_types = [val.type for _, val in whens] + ([else_.type] if else_ is not None else [])
+            if not cls.pdt_type(res.type).is_subtype(expr.dtype()) or not all(
+                isinstance(t, sqa.types.NullType) or cls.pdt_type(t).is_subtype(expr.dtype()) for t in branch_types
+            ):
                 res = res.cast(
                     cls.sqa_type(
                         Int64()
